@@ -177,6 +177,8 @@ type want struct {
 	sw           float64    // user units
 	cap, join    string
 	miter        float64
+	dash         []float64 // user units, as specified; nil = solid
+	dashOffset   float64
 }
 
 func defaults() want {
@@ -251,6 +253,13 @@ func styles() []styleSpec {
 		{` class="a"`, `.a{fill:red}.a{fill:blue}`, ``, with(func(w *want) { w.fill = blue }), "later rule of equal specificity wins", nil},
 		{` class="a"`, `.a{fill:red;stroke:blue}.b{fill:lime}.a{stroke:red}`, ``, with(func(w *want) { w.fill = red; w.stroke = red }), "three rules, the middle one for another class", nil},
 		{` fill="red"`, `.a{fill:blue}`, ` class="a"`, with(func(w *want) { w.fill = red }), "rule for the parent only: own presentation attribute beats the inherited value", nil},
+		{` fill="none" stroke="red" stroke-width="2" stroke-dasharray="6 3"`, ``, ``, with(func(w *want) { w.fill = color.RGBA{}; w.stroke = red; w.sw = 2; w.dash = []float64{6, 3} }), "dash array", nil},
+		{` fill="none" stroke="red" stroke-dasharray="6,3" stroke-dashoffset="2" transform="translate(3,4)"`, ``, ``, with(func(w *want) { w.fill = color.RGBA{}; w.stroke = red; w.dash = []float64{6, 3}; w.dashOffset = 2 }), "dash array and offset before a transform on the same element", &aff{1, 0, 0, 1, 3, 4}},
+		{` transform="scale(2)" fill="none" stroke="red" stroke-dasharray="4 1 2 1"`, ``, ``, with(func(w *want) { w.fill = color.RGBA{}; w.stroke = red; w.dash = []float64{4, 1, 2, 1} }), "transform before a four-element dash array", &aff{2, 0, 0, 2, 0, 0}},
+		{` fill="none"`, ``, ` stroke="red" stroke-dasharray="6 3"`, with(func(w *want) { w.fill = color.RGBA{}; w.stroke = red; w.dash = []float64{6, 3} }), "dash array inherited from g (group transforms and point lists are parsed after it)", nil},
+		{` fill="none" style="stroke:red;stroke-dasharray:5,2"`, ``, ``, with(func(w *want) { w.fill = color.RGBA{}; w.stroke = red; w.dash = []float64{5, 2} }), "dash array in the style attribute", nil},
+		{` fill="none" class="d"`, `.d{stroke:red;stroke-dasharray:5 1}`, ``, with(func(w *want) { w.fill = color.RGBA{}; w.stroke = red; w.dash = []float64{5, 1} }), "dash array from a CSS rule", nil},
+		{` fill="none" stroke-dasharray="none"`, ``, ` stroke="red" stroke-dasharray="6 3"`, with(func(w *want) { w.fill = color.RGBA{}; w.stroke = red }), "dasharray none overrides the inherited pattern", nil},
 		{` id="s1"`, `#nope{fill:blue}`, ``, d(), "id rule for another id", nil},
 		{` class="hot"`, `#other .hot{fill:blue}`, ` id="top"`, d(), "id compound that matches no ancestor", nil},
 		{` class="hot"`, `g > .hot{fill:blue}`, ` class="layer"`, with(func(w *want) { w.fill = blue }), "child combinator, parent is a g", nil},
@@ -444,6 +453,16 @@ func check(r *fw.R, sz sizeSpec, g1, g2 xf, sh shapeSpec, st styleSpec) {
 		}
 		if jn == "miter" && math.Abs(lim-w.miter) > 1e-9 {
 			r.Violate("stroke-miterlimit", fmt.Sprintf("miter limit is %g, specified %g", lim, w.miter))
+			return
+		}
+		// dash pattern: the numbers of the document, in its order (no claim about their unit here)
+		gotDash := op.Style.Dashes
+		same := len(gotDash) == len(w.dash)
+		for i := 0; same && i < len(gotDash); i++ {
+			same = math.Abs(gotDash[i]-w.dash[i]) <= 1e-9
+		}
+		if !same || (len(w.dash) > 0 && math.Abs(op.Style.DashOffset-w.dashOffset) > 1e-9) {
+			r.Violate("stroke-dasharray", fmt.Sprintf("dash pattern is %v offset %g, the document specifies %v offset %g%s", gotDash, op.Style.DashOffset, w.dash, w.dashOffset, tag))
 			return
 		}
 	}
